@@ -9,7 +9,7 @@
 (* it lands back in range). Laws: the last representable value succeeds,    *)
 (* the next one fails, every successful result is well-formed and in range. *)
 (***************************************************************************)
-EXTENDS DateTimeArith, Duration
+EXTENDS DateTimeArith, Duration, Primitives
 
 VARIABLES cell, last
 vars == <<cell, last>>
@@ -50,7 +50,6 @@ DateConvCells == {[k |-> kk, n |-> n, t |-> t] : kk \in {"PlainDateTime.fromDate
 StrCells == {[k |-> "PlainDate.fromStr", n |-> n] : n \in EdgeDays}
             \cup {[k |-> kk, n |-> n, t |-> t] : kk \in {"PlainDateTime.fromStr", "Instant.fromStr"}, n \in {MinDay - 1, MinDay, MinDay + 1, MaxDay, MaxDay + 1}, t \in {Midnight, T1, TLast}}
 \* the 128-bit argument's own extremes
-M16(x) == MulSmall(x, 65536)
 TwoTo127 == MulSmall(M16(M16(M16(M16(M16(M16(M16(FromInt(1)))))))), 32768)
 I128Max == Sub(TwoTo127, FromInt(1))
 I128Ends == {I128Max, Sub(I128Max, FromInt(1)), Neg(TwoTo127), Neg(I128Max)}
@@ -84,7 +83,23 @@ DurAddCells == {[k |-> "Duration.add", a |-> a, b |-> b] :
                   b \in {Dur10(Zero, Zero, Zero, Zero, Zero, Zero, One, Zero, Zero, Zero), Dur10(Zero, Zero, Zero, Zero, Zero, Zero, Neg(One), Zero, Zero, Zero),
                          Dur10(Zero, Zero, Zero, Zero, Zero, Zero, Zero, FromInt(999), Zero, Zero), Dur10(Zero, Zero, Zero, Zero, Zero, Zero, Zero, FromInt(1000), Zero, Zero),
                          Dur10(Zero, Zero, Zero, Zero, Zero, Zero, Zero, FromInt(-999), Zero, Zero), Dur10(Zero, Zero, Zero, Zero, Zero, Zero, Zero, FromInt(-1000), Zero, Zero)}}
-Cells == DateNewCells \cup DateAddCells \cup DateAddMonthCells \cup DateAddWeekCells \cup DTNewCells \cup DTAddCells \cup DTRoundCells \cup DateToDTCells \cup DateEpochCells \cup DateToZonedCells \cup DateConstrainCells \cup DTToZonedCells
+\* numeric primitives: the three sources of EpochNanoseconds around both limits, fractions, non-numbers; FiniteF64 read as integers
+TwoTo20 == FromInt(1048576)      \* the spacing of doubles around 8.64e21
+EpochFromCells ==
+  {[k |-> "Prim.epochNs", src |-> "i128", v |-> Add(b, FromInt(d)), frac |-> FALSE, special |-> ""] : b \in {MaxInstantBig, Neg(MaxInstantBig)}, d \in Deltas}
+  \cup {[k |-> "Prim.epochNs", src |-> "u128", v |-> v, frac |-> FALSE, special |-> ""] : v \in {Zero, FromInt(1), MaxInstantBig, Add(MaxInstantBig, FromInt(1)), Sub(MaxInstantBig, FromInt(1)), MulSmall(MaxInstantBig, 2), I128Max}}
+  \cup {[k |-> "Prim.epochNs", src |-> "u128", v |-> Zero, frac |-> FALSE, special |-> "max"]}      \* u128::MAX
+  \cup {[k |-> "Prim.epochNs", src |-> "f64", v |-> v, frac |-> FALSE, special |-> ""] :
+           v \in {Zero, MaxInstantBig, Neg(MaxInstantBig), Add(MaxInstantBig, TwoTo20), Sub(MaxInstantBig, TwoTo20), Neg(Add(MaxInstantBig, TwoTo20)), Neg(Sub(MaxInstantBig, TwoTo20)), MulSmall(P2to63, 4), Neg(MulSmall(P2to63, 4))}}
+  \cup {[k |-> "Prim.epochNs", src |-> "f64", v |-> FromInt(n), frac |-> TRUE, special |-> ""] : n \in {0, 1, -1, 1000000}}
+  \cup {[k |-> "Prim.epochNs", src |-> "f64", v |-> Zero, frac |-> FALSE, special |-> sp] : sp \in {"NaN", "inf", "-inf"}}
+IntTys == {"u8", "u32", "i32", "i64"}
+FFVals(ty) == {Zero, FromInt(1), FromInt(-1), FromInt(255), FromInt(256), TyMax(ty), TyMin(ty), MulSmall(P2to63, 4), Neg(MulSmall(P2to63, 4))}
+\* (values next to a type's limit are used only where the neighbouring integer is a double: below 2^53)
+PrimKinds == {"Prim.truncated", "Prim.integral", "Prim.positive"}
+FFCells == UNION {{[k |-> kk, ty |-> ty, v |-> v, frac |-> FALSE] : kk \in PrimKinds, v \in {x \in FFVals(ty) : ty # "i64" \/ x # TyMax(ty)}} : ty \in IntTys}
+           \cup {[k |-> kk, ty |-> ty, v |-> FromInt(n), frac |-> TRUE] : kk \in PrimKinds, ty \in IntTys, n \in {0, 1, -1, 254, 255}}
+Cells == EpochFromCells \cup FFCells \cup DateNewCells \cup DateAddCells \cup DateAddMonthCells \cup DateAddWeekCells \cup DTNewCells \cup DTAddCells \cup DTRoundCells \cup DateToDTCells \cup DateEpochCells \cup DateToZonedCells \cup DateConstrainCells \cup DTToZonedCells
          \cup DateConvCells \cup StrCells \cup ZdtCells \cup InstNewCells \cup InstAddCellsOK \cup InstMsCells \cup InstRoundCellsOK \cup DurAddCells
 
 \* the call (op, args) and its expected outcome
@@ -125,6 +140,10 @@ Call(c) ==
              out |-> IF (c.tt # "none" /\ DTNew(DT(CivilFromDays(c.n), t)).kind # "ok") \/ ~InInstantRange(ns) THEN ErrRange ELSE Ok(ns)]
     [] c.k = "PlainDate.epochNsUtc" -> [op |-> "PlainDate.epochNsUtc", args |-> [recv |-> CivilFromDays(c.n)],
                                         out |-> IF c.n > MinDay THEN Ok(Mul(DayNsBig, FromInt(c.n))) ELSE ErrRange]
+    [] c.k = "Prim.epochNs" -> [op |-> c.k, args |-> [src |-> c.src, v |-> c.v, frac |-> c.frac, special |-> c.special], out |-> EpochNsFrom(c.src, c.v, c.frac, c.special)]
+    [] c.k \in {"Prim.truncated", "Prim.integral", "Prim.positive"} ->
+         [op |-> c.k, args |-> [ty |-> c.ty, v |-> c.v, frac |-> c.frac],
+          out |-> CASE c.k = "Prim.truncated" -> Truncated(c.ty, c.v) [] c.k = "Prim.integral" -> Integral(c.ty, c.v, c.frac) [] OTHER -> Positive(c.ty, c.v)]
     [] c.k = "Instant.new" -> [op |-> "Instant.new", args |-> [ns |-> c.ns], out |-> InstantNew(c.ns)]
     [] c.k = "Instant.add" -> [op |-> IF c.sub THEN "Instant.subtract" ELSE "Instant.add", args |-> [recv |-> c.i, dur |-> NsD(IF c.sub THEN Neg(c.ns) ELSE c.ns)], out |-> InstantAdd(c.i, NsD(c.ns))]
     [] c.k = "Instant.fromEpochMs" -> [op |-> "Instant.fromEpochMs", args |-> [ms |-> c.ms], out |-> FromEpochMs(c.ms)]
@@ -142,6 +161,8 @@ WellFormed == (Done /\ last.out.kind = "ok") =>
   CASE last.op \in {"PlainDate.new", "PlainDate.add", "PlainDate.subtract"} -> ValidDate(last.out.val) /\ InDateRange(DFC(last.out.val))
     [] last.op \in {"Instant.new", "Instant.add", "Instant.subtract", "Instant.fromEpochMs", "Instant.round", "PlainDate.epochNsUtc"} -> IsBig(last.out.val) /\ InInstantRange(last.out.val)
     [] last.op = "Duration.add" -> ValidDur(last.out.val)
+    [] last.op = "Prim.epochNs" -> InInstantRange(last.out.val)
+    [] last.op \in {"Prim.truncated", "Prim.integral", "Prim.positive"} -> Le(TyMin(cell.ty), last.out.val) /\ Le(last.out.val, TyMax(cell.ty))
     [] OTHER -> TRUE
 \* exact boundary: the last representable value succeeds, the next one fails
 Boundary ==
